@@ -61,6 +61,13 @@ P = {
                 runs=[dict(cmd="c07", quick=10, thorough=1500, shards_thorough=8, model=False)]),
     "C08": dict(theorems=["Properties/C08.v"],
                 runs=[dict(cmd="c08", quick=6, thorough=40, shards_thorough=6, model=False, extra="procs=4", timeout=3000)], vm_k=0),
+    "C11": dict(theorems=["Properties/C11.v"],
+                runs=[dict(cmd="c11", quick=40, thorough=800, shards_thorough=8, timeout=3000)], vm_k=12),
+    "C15": dict(theorems=["Properties/C15.v"],
+                runs=[dict(cmd="c15", quick=100, thorough=4000, shards_thorough=8)], vm_k=6),
+    "C25": dict(theorems=["Properties/C25.v"], race=True, vm_k=0,
+                runs=[dict(cmd="c25", quick=2, thorough=24, shards_thorough=4, model=False, timeout=3000,
+                           extra="/verif/coq/Generated/Locks.unguarded.txt")]),
     "C09": dict(theorems=["Properties/C09.v"],
                 runs=[dict(cmd="appdb", quick=300, thorough=20000, shards_thorough=4),
                       dict(cmd="c09", quick=16, thorough=600, shards_thorough=8, model=False)]),
@@ -73,7 +80,7 @@ def run(pid, tier, seed):
         sys.exit(2)
     cfg = P[pid]
     standard(pid, tier, seed, cfg["theorems"], cfg["runs"], level=cfg.get("level", "proof"),
-             vm_k=cfg.get("vm_k", 40), post=cfg.get("post"))
+             vm_k=cfg.get("vm_k", 40), post=cfg.get("post"), race=cfg.get("race", False))
 
 
 def replay(pid, path):
@@ -87,6 +94,7 @@ def replay(pid, path):
 
 HOOK_COMMITS = ["5aa5cc2", "022b891", "48f2d61"]
 NOT_YET = {}
+PENDING = {"C25"}   # built, but not yet quiet on the unchanged tree: not claimed in MANIFEST.json until it is
 TB = ("Trusted: Coq kernel + vm_compute; no axioms (Print Assumptions checked each run); extraction ExtrOcamlBasic+ExtrOcamlZBigInt cross-checked by "
       "vm_compute on a sample each run; translators (harness/cmd/xlate), Go harness, OCaml driver; the Go source is modelled, tied by regenerated "
       "constants and differential execution; math/big, IAVL, tm-db, crypto trusted. ")
@@ -170,6 +178,18 @@ META = {
         text="Theorem on a three-store write-list model (events db, state db, appdb) whose write order and guards are regenerated from Blockchain.Commit, State.Commit, tree.Commit, CommitEvents and every AppDB.Save*: for every history, every block and EVERY crash position k within the Commit of that block, the restarted node reports a height the consensus engine can replay from, re-executing the resent block(s) reproduces the app hash, and all later observations (responses, hashes, every appdb getter, stored events) equal the uncrashed node's (C10_for_this_code, for the code as it is now: appdb records in one atomic batch, fix ba5358b). Kept for the record: the unbatched variant is refuted right after the height write (C10_unbatched_refuted) and recoverable exactly up to it (C10_crash_recoverable_partial, tight). Node level: all three databases are wrapped; after every single write of Commit the stores are copied, a fresh node is started on the copy, Info + resend, and the continuation is compared with the uncrashed node; the logged write sequence is compared with the model's.",
         note=TB + "PARTIAL: caches of the state modules are not modelled (the C09 assumption). KNOWN FINDING c10-restart-after-initchain: InitChain computes the initial validator set after committing the genesis state, so a process restarted between InitChain and the first Commit executes block 1 on a different state. tm-db Set/batch atomicity and Tendermint's resend rule are trusted. Found and repaired with this check: ba5358b.",
         technique="Coq proof (prefix-replay simulation over the write list of three stores) + regenerated write order and guards + crash-injection differential on the real node"),
+    "C11": dict(
+        text="Export, Import and AppState.Verify are transliterated in Model/Genesis.v (accounts, coins, used checks, frozen funds, candidates with stake slots and pending updates and the import-time recalculation, waitlist merging, validators, pools, halt votes, commission table, counters, reward pair). Theorems: 'passes validation' is proved in full for every consistent state (C11_export_verifies; the token-with-frozen-funds counterexample found by this check was repaired by fix b66d393 and is kept as C11_verify_regression against the old rule); halt votes survive the round trip (C11_halt_votes_regression, fix 49ebe8c) and the candidate id counter is restored (C11_maxid_restored, fix 9497f5f); 'exports the same state again' is refuted as stated by a pending delegation (C11_roundtrip_refuted: Import recalculates stakes) and proved exactly at recalculation fixpoints (C11_roundtrip_partial, full record equality) and in general up to the next update block's recalculation (C11_roundtrip_general); hidden state and slot order (C11_hidden_state, C11_slots_refuted); 'behaves like the original' is proved for EVERY ledger continuation (C11_continues_alike: equal responses and a pointwise simulation of balances, nonces, owners, multisigs, used checks, frozen lists, coins, counters, prices). Tie: model 18 is run against the real node on every fork (Verify verdict on the export and on 19 corrupted copies, second export) and the node-level differential exports a generated history at a cut, starts a second chain from the export (real InitChain), exports again section by section, then runs 14-38 continuation blocks on both chains comparing responses, validator updates, emission, reward pair and full exports.",
+        note=TB + "Modelled in Coq: the sections above. Node-level only: limit orders, candidate-bound frozen funds, removal of candidates ranked beyond 100 at import, jail/commission-edit heights, reward/control addresses, LockStakeUntilBlock, absence windows, block list, deleted candidates, commission/update votes, emission, versions, price record. The genesis is assembled as cmd/export.go does, but with InitialHeight h+1 (known finding c11-export-cmd-initial-height).",
+        technique="Coq proof (refutation witnesses, exact round trip at fixpoints, simulation for every continuation) + differential correspondence of Export/Import/Verify against the real node + fork-and-continue differential"),
+    "C15": dict(
+        text="Theorems, all magnitudes, any bancor oracle values, positive reserves: a sell through pools credits at least the stated minimum (C15_sell_min), a buy debits at most the stated maximum (C15_buy_max), the tx.return/tx.sell_amount tags and the balance changes agree per coin for all coincidences of first, last and commission coin (C15_tags_truthful), sell-all spends exactly the balance minus commission (C15_sell_all_exact). Limits are enforced in the check phase only, and that phase's simulation of the commission swap is exact for every pool, both orientations and every route position (C15_simulation_exact, C15_check_amount_delivered: the amount compared with the limit IS the amount delivered). With limit orders on the commission pool the single-hop sale satisfies simulated = delivered (C15_simulation_exact_with_orders, C15_sell_min_with_orders). Tie: model 19 (SwapTx.v, SwapTxBook.v) against the real node, check mode and deliver mode per transaction, order-book op 20; scenarios replay the two repaired defects.",
+        note=TB + "Multi-hop routes and buys through pools WITH limit orders are monitor-only. The failure fee is not modelled here (state re-synced after rejected deliveries; it is in the Ledger model). Gates other than commission-coin existence belong to the Ledger model. Bancor conversions use the formula results as oracle values (C12 speaks about them).",
+        technique="Coq proof (lia/nia over Z, induction over routes and order books) + differential correspondence against the real node + monitors"),
+    "C25": dict(
+        text="Theorems: (1) in a threads-with-RWMutex semantics (Acq R|W / Rel / Read / Write, any interleaving) threads that are well bracketed, never re-acquire a mutex they hold, read a field only under one of its guard mutexes and write it only under all of them in W mode never reach a configuration in which two threads are about to access one field, one writing (C25_lockset_race_free); tables accepted by the decidable checker all_guarded induce such threads (C25_table_race_free); for the current tree every thread that stays away from the reported sites is race free (C25_repo_race_free_except_reported), the reported list being exactly what Coq computes from the regenerated table (C25_unguarded_sites). (2) queries that fill a cache atomically with the value the committed tree holds leave every executor output and the logical content unchanged for every interleaving (C25_memo_transparent, C25_memo_interleaving_independent); a fill whose absence check and store are two critical sections does not (C25_memo_nonatomic_refuted, the shape of Accounts.get). The access table (324 accesses to 52 shared fields of swap, candidates, accounts, validators, coins, waitlist, frozenfunds, appdb, minter with must-held locksets, caller-inherited locks, query reachability), the lock order graph, re-acquisitions and non-atomic fills are regenerated from /repo by a go/ast+go/types translator on every run. Search: generated histories replayed on the real node while 4 goroutines call the real api/v2/service handlers on the live state, in a -race build, in a child process; app hashes / responses / validator updates / emission compared with the run alone; a watchdog turns a hang into a goroutine dump; a targeted first-touch scenario for the non-atomic fill.",
+        note=TB + "PARTIAL by nature: the discipline theorem is proved, the table is extracted by a conservative static analysis (trusted; must-locksets, fail-closed: an access it cannot attribute is emitted unguarded; lock identity = owning struct + field + base expression; interface calls by class hierarchy; function-typed fields by their bindings), real schedules are only sampled. Deadlock freedom is NOT a theorem: lock-order cycles and re-acquisitions are reported by the translator and searched at run time. sync/atomic fields, per-object field reads by the API layer (stake, Candidate, Limit fields read without the object's lock) are outside the table: only the race detector speaks. Export and the Load* methods run on private states only (checked syntactically on every run). Handler panics are caught by the gRPC recovery interceptor and are recorded, not counted. Findings: see known_findings.json (four defects repaired in /repo: 259ab52, 67be03c, eee65ec, 301c0af; the unlocked field reads of the API layer and the remaining statically reported sites are listed as known).",
+        technique="Coq proof of the lockset discipline and of memoisation transparency + regenerated access table evaluated in Coq + race-detector / deadlock / perturbation search on the real node under real API handlers"),
     "C29": dict(
         text="Theorems: two nodes that committed the same blocks - with ANY restarts in between - produce identical snapshots (appdb disk records in the code's order + tree export); a node restored from a snapshot reports the producer's height and app hash; from then on it is observationally equal (responses, hashes, every appdb getter) to the producer for every continuation (simulation relation: the restored node has an empty events db and a single tree version). Tie: snapshot_records / restore_records / snapshot_reads_disk regenerated from snapshots.go. Node level: real cosmos-sdk snapshot store; producer A, producer B restarted at random heights (chunk bytes must be identical), restored node R driven through OfferSnapshot / ApplySnapshotChunk, then the same continuation on A and R: Info, responses, hashes, getters, exports, appdb bytes.",
         note=TB + "IAVL export/import, zlib, protobuf and chunking are trusted and exercised. An emission of exactly 0 is excluded (empty record is skipped by Snapshot). The events db is not part of a snapshot: older events are absent on the restored node.",
